@@ -2,6 +2,7 @@ package functions
 
 import (
 	"fmt"
+	"math"
 
 	"diagonal.works/b6"
 	"diagonal.works/b6/api"
@@ -12,6 +13,9 @@ import (
 
 // Return a point at the given latitude and longitude, specified in degrees.
 func ll(context *api.Context, lat float64, lng float64) (b6.Geometry, error) {
+	if math.IsNaN(lat) || math.IsInf(lat, 0) || math.IsNaN(lng) || math.IsInf(lng, 0) {
+		return nil, fmt.Errorf("expected a latitude and longitude in degrees, found %f,%f", lat, lng)
+	}
 	return b6.GeometryFromLatLng(s2.LatLngFromDegrees(lat, lng)), nil
 }
 
@@ -117,6 +121,12 @@ func rectanglePolygon(context *api.Context, a b6.Geometry, b b6.Geometry) (b6.Ar
 
 // Return a polygon approximating a spherical cap with the given center and radius in meters.
 func capPolygon(context *api.Context, center b6.Geometry, radius float64) (b6.Area, error) {
+	if math.IsNaN(radius) || math.IsInf(radius, 0) || radius <= 0 {
+		return nil, fmt.Errorf("expected a radius greater than 0, found %f", radius)
+	}
+	if center.GeometryType() != b6.GeometryTypePoint {
+		return nil, fmt.Errorf("expected a point as the center")
+	}
 	return b6.AreaFromS2Loop(s2.RegularLoop(center.Point(), b6.MetersToAngle(radius), 128)), nil
 }
 
